@@ -57,14 +57,19 @@ def replay_shift(model, cls="SinglePhaseReservoir", nx=4, nt=3):
     return bad, {"what": f"{cls}: shifting all times by {s!r} changes pseudopressure by {da:.3e} and recovery by {dr:.3e}", "inputs": {"t": t.tolist()}}
 
 
-def replay_schedule(model, cls="SinglePhaseReservoir", nx=4, nt=3):
+def replay_schedule(model, cls="SinglePhaseReservoir", nx=4, nt=3, tdtype="f8"):
     import numpy as np
     t = np.cumsum([0.0] + [float(model.get(f"dt{k}") or 0.01 * k) for k in range(1, nt)])
+    if tdtype == "i8":
+        t = np.arange(nt) * 3          # whole days as an integer grid
+    pf = 1000.6                        # not representable in an integer grid's dtype
     a, b = _real(cls, nx), _real(cls, nx)
+    a.pressure_fracface = b.pressure_fracface = pf
     a.simulate(t)
-    b.simulate(t, pressure_fracface=np.full(nt, 1000.0))
+    b.simulate(t, pressure_fracface=np.full(nt, pf))
     d = float(np.abs(np.asarray(a.pseudopressure) - np.asarray(b.pseudopressure)).max())
-    return d > 0, {"what": f"constant schedule vs scalar setting differ by {d:.3e}", "inputs": {"t": t.tolist()}}
+    return d > 0, {"what": f"time grid {t.tolist()} ({t.dtype}), frac-face pressure {pf}: constant schedule vs scalar setting differ by {d:.3e}",
+                   "inputs": {"t": t.tolist()}}
 
 
 def replay_errors(model, cls="SinglePhaseReservoir", which="length"):
@@ -137,17 +142,19 @@ def job_shift(job, cls, nx, nt):
         job.prove(f"{tag}/reach[path{k}]", pr.pc, expect="sat", elim=True)
 
 
-def job_schedule(job, nx, nt):
+def job_schedule(job, nx, nt, tdtype="f8"):
     cls = "SinglePhaseReservoir"
     mod = load_reservoir()
     job.encoded(mod, "SinglePhaseReservoir.simulate")
-    tag = f"{cls}[nx={nx},nt={nt}]"
+    tag = f"{cls}[nx={nx},nt={nt}" + (",integer time grid" if tdtype == "i8" else "") + "]"
 
     def run():
         memo = MemoSolve()
         SS.LinSolve.reset(memo)
         SS.reset_names()
         t, _ = times(nt)
+        if tdtype != "f8":
+            t = SymArray(list(t.d), tdtype)      # e.g. whole days: the grid's dtype must not leak into the frac-face value
         fluid = FluidStub()
         a = _mk(mod, cls, nx, fluid)
         a.simulate(t)
@@ -162,7 +169,9 @@ def job_schedule(job, nx, nt):
         ra, rb = pr.value
         flat = lambda rows: [v for r in rows for v in r]
         job.prove(f"{tag}/constant schedule == scalar setting[path{k}]", pr.pc + [_differs(flat(ra), flat(rb))], bound=f"nx={nx}, nt={nt}",
-                  replay=(replay_schedule, {"cls": cls, "nx": nx, "nt": nt}))
+                  replay=(replay_schedule, {"cls": cls, "nx": nx, "nt": nt, "tdtype": tdtype}))
+    if tdtype != "f8":
+        return
     # wrong schedule length
     for extra in (-1, 1, 2):
         def bad():
@@ -225,7 +234,9 @@ def job_interp(job, cls, nx, nt):
 
 def jobs(tier):
     out = []
-    cfg = [(3, 3), (4, 3)] if tier == "quick" else [(3, 3), (4, 3), (4, 4), (5, 4), (6, 5)]
+    # (6, 5) was tried in the thorough tier: the identities are unsat there too but the reachability witness of the
+    # ideal reservoir is unknown at 600 s, so the harness cannot rule out vacuity - outside the claim (bound: nx <= 5, nt <= 4)
+    cfg = [(3, 3), (4, 3)] if tier == "quick" else [(3, 3), (4, 3), (4, 4), (5, 4)]
     for cls in ("SinglePhaseReservoir", "IdealReservoir"):
         for nx, nt in cfg:
             out.append((f"shift-{cls[:6]}-{nx}-{nt}", lambda j, c=cls, a=nx, b=nt: job_shift(j, c, a, b)))
@@ -233,4 +244,5 @@ def jobs(tier):
         out.append((f"interp-{cls[:6]}", lambda j, c=cls: job_interp(j, c, 3, 3)))
     for nx, nt in cfg[:2]:
         out.append((f"schedule-{nx}-{nt}", lambda j, a=nx, b=nt: job_schedule(j, a, b)))
+    out.append(("schedule-inttime-3-3", lambda j: job_schedule(j, 3, 3, "i8")))
     return out
